@@ -127,6 +127,25 @@ package escape
 // the call's arguments do not). A parameter that is not mapped has no pointees in
 // the context, and "no pointees" reads as local.
 
+// C14: derefsAreLocal(g, ptr) answers "local" (nil) only when EVERY node ptr points
+// to has status Local; Pointees returns exactly the targets of the edges out of src.
+//@ func EscapeGraph.Pointees
+//@   property C14
+//@   requires g != nil && g.edges != nil
+//@   ensures exact: forall d *Node :: has(result, d) <==> (has(g.edges, src) && has(g.edges[src], d))
+//@   ensures fresh_set: isfresh(result)
+//@   modifies nothing
+//@   loop d invariant frame: preserved(all)
+//@   loop d invariant partial: (forall x *Node :: has(pointees, x) ==> has(g.edges, src) && has(g.edges[src], x)) && (forall x *Node :: visited(d, x) ==> has(pointees, x)) && isfresh(pointees)
+
+//@ func derefsAreLocal
+//@   property C14
+//@   requires wfGraph(g)
+//@   requires forall x *Node :: has(g.edges, ptr) && has(g.edges[ptr], x) ==> x != nil
+//@   ensures local_only_if_all_local: result == nil ==> forall n *Node :: old(has(g.edges, ptr) && has(g.edges[ptr], n)) ==> g.status[n] == Local
+//@   loop n invariant wf: wfGraph(g)
+//@   loop n invariant checked: forall x *Node :: visited(n, x) ==> has(g.status, x) && g.status[x] == Local
+
 //@ property C14
 //@ immutable escapeCallsiteInfoImpl.callsite escapeCallsiteInfoImpl.nodes escapeCallsiteInfoImpl.prog escapeCallsiteInfoImpl.g
 
